@@ -594,6 +594,20 @@ def _content_key(m):
     for op in m["ops"]:
         o = dict(op)
         o["q"] = sorted(map(tuple, op["q"])) if op["k"] in SYMMETRIC else [tuple(q) for q in op["q"]]
+        if op["k"] != "CircuitOp":
+            # numbers that Cirq's value equality identifies: -0.0 / 0.0, exponents modulo the period, FSim angles
+            p = {}
+            for k_, v in op["p"].items():
+                if isinstance(v, float):
+                    v = v + 0.0
+                    if op["k"] in EXPONENT_KINDS and k_ == "exponent" and "shift" not in op["p"]:
+                        v = v % (4.0 if op["k"] == "ISwapPow" else 2.0)
+                    elif op["k"] == "FSim":
+                        v = round(v % (2 * 3.141592653589793), 12)
+                    elif k_ in ("phase_exponent", "a", "z"):
+                        v = v % 2.0
+                p[k_] = v
+            o["p"] = p
         ops.append(repr(sorted(o.items(), key=lambda kv: kv[0])))
     return repr(sorted(ops))
 
